@@ -301,7 +301,7 @@ def eval_strings(imports, exprs, tag, shard=400, timeout=900):
     shards = [exprs[i:i + shard] for i in range(0, len(exprs), shard)]
     procs = []
     for si, sh_exprs in enumerate(shards):
-        name = "%s_%d" % (tag, si)
+        name = "%s_p%d_%d" % (tag, os.getpid(), si)        # unique per process: checks may run side by side
         path = os.path.join(cdir, name + ".v")
         with open(path, "w") as fh:
             fh.write("From Coq Require Import ZArith String List Bool.\n")
